@@ -97,8 +97,8 @@ def xfer(ctx, exe):
             continue
         seen.add(key)
         sid = len(texts) + 1
-        ret = {"data": True, "len": b["rlen"], "send": b["send"]}
-        st = {"open": 0, "rc": len(b["r"]), "rcalls": b["rcalls"], "retries": b["retries"], "wc": len(b["w"]), "wcalls": b["wcalls"]}
+        st = {"data": True, "len": b["rlen"], "open": 0, "send": b["send"]}
+        ret = {"rc": len(b["r"]), "rcalls": b["rcalls"], "retries": b["retries"], "wc": len(b["w"]), "wcalls": b["wcalls"]}
         texts.append("S %d\nxfer %d %s %s %s = %s %s\nE\n" % (sid, b["len"], b["mode"], tok(b["w"]), tok(b["r"]), tok(ret), tok(st)))
         meta.append(b)
     rnd = random.Random(ctx.seed)
@@ -122,7 +122,8 @@ def xfer(ctx, exe):
     nontrivial = sum(1 for b in meta if any(k != "ok" for k, n in b["w"]) or any(k not in ("ok", "end") for k, n in b["r"]))
     ctx.add("distinct_nontrivial", nontrivial)
     failed_sids = set()
-    for f in fails:
+    keys_seen, unlisted = set(), 0
+    for f in sorted(fails, key=lambda f: (f.kind not in ("ret", "crash", "hang"), f.sid)):
         b = meta[f.sid - 1]
         failed_sids.add(f.sid)
         if f.kind == "state":
@@ -134,9 +135,15 @@ def xfer(ctx, exe):
         else:
             d = f.sig
         key = ("xfer %s/%s" % (f.kind, d)) if f.kind in ("crash", "hang", "exit") else "xfer [%s] %s/%s" % (sched_class(b), f.kind, d)
+        if key not in keys_seen and len(keys_seen) >= 40:
+            unlisted += 1                   # enough distinct classes listed; the rest is counted
+            continue
+        keys_seen.add(key)
         ctx.report(key, "transfer of %d bytes, mode %s, write schedule %s, read schedule %s: %s exp=%s got=%s %s" % (
             b["len"], b["mode"], tok(b["w"]), tok(b["r"]), f.kind, f.exp, f.got, f.sig),
             {"harness_args": [], "script_text": texts[f.sid - 1], "failure": repr(f), "detail": f.detail})
+    if unlisted:
+        ctx.notes.append("%d further failing transfer observations in classes beyond the 40 listed" % unlisted)
     ctx.cov["xfer"] = {"schedules": len(texts), "nontrivial": nontrivial, "failed": len(failed_sids)}
     for b in rnd.sample(meta, min(3, len(meta))):
         ctx.sample({"len": b["len"], "mode": b["mode"], "write_schedule": b["w"], "read_schedule": b["r"],
